@@ -90,14 +90,14 @@ def gen_cases(ctx):
     nrand = 100000 if thorough else 20000
     c = {k: [] for k in KINDS}
     # --- Apply Action (explicit list: too short, over-long; the 1- and 2-octet forms are swept completely)
+    for _ in range(50):
+        c["aa"].append(pack_octets(bytes(rnd.randrange(256) for _ in range(rnd.choice((1, 2))))))
     c["aa"].append(pack_octets(b""))
     for ln in (3, 4, 5, 7):
         c["aa"].append(pack_octets(b"\xff" * ln))
         c["aa"].append(pack_octets(b"\x00" * ln))
         for _ in range(100):
             c["aa"].append(pack_octets(bytes(rnd.randrange(256) for _ in range(ln))))
-    for _ in range(50):
-        c["aa"].append(pack_octets(bytes(rnd.randrange(256) for _ in range(rnd.choice((1, 2))))))
     # --- Reporting Triggers, decode
     c["rt"].append(pack_octets(b""))
     for v in range(256):
